@@ -24,7 +24,7 @@ Definition spec_open (nc : bool) (w : world) (k : rkind) (path : nat) : world * 
   match k with
   | RRead => k_open w path (fl true false false false false false)
   | RWrite => if nc && is_file w path then (w, inr EEXIST)
-              else k_open w path (fl false true false (negb nc) true false)
+              else k_open w path (fl false true false true true false)
   | RAppend => k_open w path (fl false false true false true false)
   | RReadWrite => k_open w path (fl true true false false true false)
   | RClobber => k_open w path (fl false true false true true false)
@@ -41,22 +41,24 @@ Fixpoint spec_redirect (fuel : nat) (nc : bool) (w : world) (T : tbl) (r : redir
       | (_, inr e) => inr (EOpenFail path e)
       end
   | RDup n out src =>
-      match sys_dup2 T src (match n with Some n => n | None => if out then 1 else 0 end) with
-      | Some T' => inl (w, T')
-      | None => inr (EBadFd src)
-      end
+      let dst := match n with Some n => n | None => if out then 1 else 0 end in
+      if Nat.eqb src dst then inl (w, T)      (* bash: duplicating a descriptor onto itself does nothing, open or not *)
+      else match sys_dup2 T src dst with
+           | Some T' => inl (w, T')
+           | None => inr (EBadFd src)
+           end
   | RClose n out => inl (w, sys_close T (match n with Some n => n | None => if out then 1 else 0 end))
   | RBoth path app =>
-      match fuel with O => inr EInvalidRedir | S fuel =>
+      match fuel with O => inr (EInvalidRedir 0) | S fuel =>
       match spec_redirect fuel nc w T (RFile (Some 1) (if app then RAppend else RWrite) path) with
       | inl (w', T') => spec_redirect fuel nc w' T' (RDup (Some 2) true 1)
       | inr e => inr e
       end end
   | RDupWord n path =>
-      match fuel with O => inr EInvalidRedir | S fuel =>
+      match fuel with O => inr (EInvalidRedir 0) | S fuel =>
       match n with
       | None | Some 1 => spec_redirect fuel nc w T (RBoth path false)
-      | Some _ => inr EInvalidRedir      (* "ambiguous redirect" *)
+      | Some _ => inr (EInvalidRedir path)      (* "ambiguous redirect" *)
       end end
   | RHereDoc n body =>
       let '(w', id) := k_pipe_with w body in
